@@ -4,11 +4,13 @@
 //!        simlab --replay <file>
 
 mod core;
+mod mclass;
 mod refsim;
 mod runner;
 mod sclass;
 mod sprops;
 
+use mclass::*;
 use runner::*;
 use sprops::*;
 
@@ -55,6 +57,65 @@ fn s_subs(prop: &'static str) -> Vec<(SSub, u32, u32, usize)> {
     }
 }
 
+fn msub(prop: &'static str, name: &'static str, focus: MFocus, mt: Option<u8>) -> MSub {
+    MSub {
+        name,
+        prop,
+        focus,
+        mt,
+    }
+}
+
+/// Class-M sub-checks of a property: (sub, quick cases, thorough cases, workers).
+fn m_subs(prop: &'static str) -> Vec<(MSub, u32, u32, usize)> {
+    match prop {
+        "C02" => vec![
+            (msub("C02", "c02-dag-st", MFocus::Dag, None), 40_000, 800_000, 16),
+            (msub("C02", "c02-dag-mt", MFocus::Dag, Some(4)), 4000, 80_000, 4),
+            (msub("C02", "c02-hier-mt8", MFocus::Hier, Some(8)), 800, 16_000, 2),
+        ],
+        "C03" => vec![
+            (msub("C03", "c03-dag-st", MFocus::Dag, None), 40_000, 800_000, 16),
+            (msub("C03", "c03-dag-mt", MFocus::Dag, Some(4)), 4000, 80_000, 4),
+            (msub("C03", "c03-cyclic-st", MFocus::Cyclic, None), 10_000, 200_000, 16),
+        ],
+        "C04" => vec![
+            (msub("C04", "c04-dag-st", MFocus::Dag, None), 30_000, 600_000, 16),
+            (msub("C04", "c04-dag-mt", MFocus::Dag, Some(4)), 5000, 100_000, 4),
+            (msub("C04", "c04-hier-mt8", MFocus::Hier, Some(8)), 1000, 20_000, 2),
+            (msub("C04", "c04-dag-mt16", MFocus::Dag, Some(16)), 300, 6000, 1),
+        ],
+        "C05" => vec![
+            (msub("C05", "c05-dag-st", MFocus::Dag, None), 20_000, 400_000, 16),
+            (msub("C05", "c05-dag-mt", MFocus::Dag, Some(4)), 5000, 100_000, 4),
+            (msub("C05", "c05-cyclic-mt", MFocus::Cyclic, Some(4)), 2000, 40_000, 4),
+            (msub("C05", "c05-hier-mt8", MFocus::Hier, Some(8)), 800, 16_000, 2),
+        ],
+        "C06" => vec![
+            (msub("C06", "c06-cyclic-st", MFocus::Cyclic, None), 40_000, 800_000, 16),
+            (msub("C06", "c06-cyclic-mt", MFocus::Cyclic, Some(4)), 4000, 80_000, 4),
+            (msub("C06", "c06-dag-mt", MFocus::Dag, Some(4)), 3000, 60_000, 4),
+            (msub("C06", "c06-hier-mt8", MFocus::Hier, Some(8)), 800, 16_000, 2),
+        ],
+        "C14" => vec![
+            (msub("C14", "c14-query-st", MFocus::Query, None), 30_000, 600_000, 16),
+            (msub("C14", "c14-query-mt", MFocus::Query, Some(4)), 3000, 60_000, 4),
+            (msub("C14", "c14-clones-st", MFocus::Clones, None), 20_000, 400_000, 16),
+            (msub("C14", "c14-clones-mt", MFocus::Clones, Some(4)), 2000, 40_000, 4),
+        ],
+        "C16" => vec![
+            (msub("C16", "c16-hier-st", MFocus::Hier, None), 40_000, 800_000, 16),
+            (msub("C16", "c16-hier-mt", MFocus::Hier, Some(4)), 4000, 80_000, 4),
+            (msub("C16", "c16-cyclic-st", MFocus::Cyclic, None), 10_000, 200_000, 16),
+        ],
+        "C17" => vec![
+            (msub("C17", "c17-sim-st", MFocus::Dag, None), 30_000, 600_000, 16),
+            (msub("C17", "c17-sim-mt", MFocus::Dag, Some(4)), 3000, 60_000, 4),
+        ],
+        _ => vec![],
+    }
+}
+
 fn rule_for(prop: &str) -> &'static str {
     match prop {
         "C01" => "cases = proptest-generated class-S benches (1-4 scripted models, event sources) + 3-40 driver commands, each executed on the real Simulation and judged by the sequential reference simulator RefSim; non-trivial = >=2 distinct deadlines fired AND (a handler scheduled an event due inside a running step_until window OR a step_until target fell strictly between two deadlines OR same-deadline events on >=2 models); distinct = hash of the JSON case",
@@ -81,6 +142,14 @@ fn run_property(prop: &'static str, tier: &str, seed: u64) -> i32 {
                 ctx.run(&C10Sub { mt: None }, n, 16);
                 let n = ctx.n(500, 10_000);
                 ctx.run(&C10Sub { mt: Some(4) }, n, 4);
+            }
+            core::set_delay_mode(0, seed);
+        }
+        "C02" | "C03" | "C04" | "C05" | "C06" | "C14" | "C16" | "C17" => {
+            core::set_delay_mode(1, seed);
+            for (s, q, t, w) in m_subs(prop) {
+                let n = ctx.n(q, t);
+                ctx.run(&s, n, w);
             }
             core::set_delay_mode(0, seed);
         }
@@ -119,11 +188,18 @@ fn replay(path: &str) -> i32 {
     let prop = v["property"].as_str().unwrap_or("").to_string();
     let sub = v["sub"].as_str().unwrap_or("").to_string();
     let case = &v["case"];
-    let props: [&'static str; 6] = ["C01", "C07", "C08", "C09", "C10", "C18"];
+    let props: [&'static str; 14] = [
+        "C01", "C07", "C08", "C09", "C10", "C18", "C02", "C03", "C04", "C05", "C06", "C14", "C16", "C17",
+    ];
     core::set_delay_mode(1, 1);
     for p in props {
         if p != prop {
             continue;
+        }
+        for (s, _, _, _) in m_subs(p) {
+            if s.name == sub {
+                return replay_one(&s, p, case, path);
+            }
         }
         for (s, _, _, _) in s_subs(p) {
             if s.name == sub {
@@ -194,5 +270,7 @@ fn main() {
         std::process::exit(2);
     };
     let p: &'static str = Box::leak(p.into_boxed_str());
+    let wd = std::env::var("VERIF_WATCHDOG_S").ok().and_then(|s| s.parse().ok()).unwrap_or(120);
+    start_watchdog(wd);
     std::process::exit(run_property(p, &tier, seed));
 }
